@@ -41,11 +41,14 @@ def check_spline(F, run, fn, clamped, kind, n, cplx=False):
     b = F.fn("interp::spline::" + fn)
     xs = knots(kind, n)
     ys = PI.csymbols("y", n) if cplx else PI.symbols("y", n)
+    if cplx == "imaginary":
+        # purely imaginary ordinates: the real parts are collinear (all zero) while the data are not — a collinearity or zero test on one component misfires
+        ys = [sp.I * sp.Symbol("yi%d" % k, real=True) for k in range(n)]
     f0, fn_ = sp.Symbol("f0", real=True), sp.Symbol("fn", real=True)
     if cplx:
         # complex ordinates and end slopes over real knots (a dropped or conjugated imaginary part is invisible with real data)
         f0, fn_ = f0 + sp.I * sp.Symbol("f0i", real=True), fn_ + sp.I * sp.Symbol("fni", real=True)
-    inst = "%s-%d%s" % (kind, n, "-complex" if cplx else "")
+    inst = "%s-%d%s" % (kind, n, ("-imaginary" if cplx == "imaginary" else "-complex") if cplx else "")
     dp = "interp::spline::" + fn
     where = F.loc(b)
     args = [list(xs), list(ys)] + ([(f0, fn_)] if clamped else []) + [PI.TOL]
@@ -160,6 +163,7 @@ def run(F, run, tier):
             check_spline(F, run, fn, clamped, kind, n)
         for n_c in (3, 4) + ((5,) if tier == "thorough" else ()):       # 4 knots: the first count at which back-substitution multiplies a complex c[i+1] by a non-zero factor
             check_spline(F, run, fn, clamped, "rational", n_c, cplx=True)
+        check_spline(F, run, fn, clamped, "rational", 4, cplx="imaginary")
     # consequences
     b = F.fn("interp::spline::spline_clamped")
     q = PI.symbols("q", 4)
